@@ -1,6 +1,6 @@
 //! unit: u15h
 //! properties: C15 C13
-//! note: PeerManager::do_read_event, what a message that does not decode does to the connection (slice: the match on the decode error), with is_gossip_msg and the seven gossip type numbers extracted: an undecodable message of any kind but gossip DISCONNECTS the peer whatever the error (unknown version, unknown required feature, invalid value, short read, bad length, i/o, dangerous value); the only exceptions keep the connection and skip that one message: a gossip message (ignored silently for an unknown required feature, answered with a warning otherwise) and a message with zlib-compressed fields (warning). Nothing undecodable is ever handed on to a message handler
+//! note: PeerManager::do_read_event, what a message that does not decode does to the connection (slice: the match on the decode error), with is_gossip_msg and the seven gossip type numbers extracted: an undecodable message of any kind but gossip DISCONNECTS the peer whatever the error (unknown version, unknown required feature, invalid value, short read, bad length, i/o, dangerous value); the only exceptions keep the connection and skip that one message: a gossip message (ignored silently for an unknown required feature, answered with a warning otherwise) and a message with zlib-compressed fields (warning). Nothing undecodable is ever handed on to a message handler; a message of a type the node does not know (do_handle_message_without_peer_lock, the two `Unknown` arms) disconnects the peer when the type is even and is ignored when it is odd (`Message::is_even`: u13b)
 //! trusted: R15 (deep slice): the inner `match e { .. }` of the `Err(e)` arm of `let message = match message_result`, arms verbatim; R8: is_gossip_msg's or-pattern of seven associated constants is written as seven equality tests (this Verus version has no associated constants in patterns); `continue` (on to the next message of the read buffer) is the function returning Ok(whether a warning was queued) and `return Err(PeerHandleError {})` its Err; `let _ = self.enqueue_message(..)` sets that flag; env: DecodeError with its variants (Io's payload opaque), `format!` / `to_owned` of the warning text are opaque strings, log macros dropped (R3); the message type numbers come from the `impl Encode` items of wire.rs
 //! trusted: assume_specification for core::cmp::max / core::cmp::min (std definitions): present in every unit so that a change that introduces them is verified instead of being rejected by the tool
 use vstd::prelude::*;
@@ -90,5 +90,25 @@ impl PeerManager {
     (_, Some(ty)) if ty >= 256 => {
 //@end
 }
+// a message of a type the node does not know: it's OK to be odd (BOLT 1) - an unknown EVEN type disconnects the peer, an unknown odd one is ignored
+pub struct MessageHandlingError {}
+impl PeerHandleError { #[verifier::external_body] pub fn into(self) -> MessageHandlingError { unimplemented!() } }
+//@extract lightning/src/ln/peer_handler.rs :: impl PeerManager :: fn do_handle_message_without_peer_lock
+//@slice R15
+    Message::Unknown(type_id) if $g:cond => { $a:any }, Message::Unknown(type_id) => { $b:any },
+//@with
+    fn what_a_message_of_an_unknown_type_does(type_id: u16, message_is_even: bool) -> Result<(), MessageHandlingError> { if $g { $a } else { $b } Ok(()) }
+//@rw R8 ?
+    message.is_even()
+//@with
+    message_is_even
+//@ret r
+//@ensures P C15,C13 a-message-of-an-unknown-even-type-disconnects-the-peer-and-one-of-an-unknown-odd-type-is-ignored
+    r is Err <==> message_is_even,
+//@mutant unknown_even_messages_ignored
+    Message::Unknown(type_id) if message.is_even() => {
+//@with
+    Message::Unknown(type_id) if !message.is_even() && false => {
+//@end
 }
 fn main() {}
